@@ -11,6 +11,7 @@ import PhyloModel.Matrix.UpgmaClamp
 import PhyloModel.Misc.Generators
 import PhyloModel.Misc.Layout
 import PhyloModel.Arena.Cli
+import PhyloModel.Arena.CliReport
 import PhyloModel.Newick.FloatLexeme
 /-! Line-protocol driver: runs the executable definitions of the model, one request per line
     (tab-separated fields), one answer line per request.  See /verif/PROTOCOL.md.
@@ -326,6 +327,19 @@ def dispatch (st : DState) (fs : List String) : DState × String :=
       | .err k => (st, "err " ++ k)
       | .panic => (st, "panic")
     | none => bad
+  | ["cli.stats", u] => match u.toInt? with
+    | some u =>
+      let r := CLIR.statsRow st.ar u
+      let o {α : Type} (f : α → String) : Option α → String | none => "-" | some v => f v
+      (st, s!"ok {o toString r.height} {o toString r.diameter} {r.nodes} {r.tips} {o encBool r.rooted} {o encBool r.binary} {o toString r.cherries} {o toString r.colless} {o toString r.sackin}")
+    | none => bad
+  | ["cli.distance", names] => match decTaxa names with
+    | some ns =>
+      (st, encQR (fun (rows : List (String × String × Int)) =>
+        ";".intercalate (rows.map (fun r => s!"{hexEnc r.1}:{hexEnc r.2.1}:{r.2.2}"))) (CLIR.cliDistance st.ar ns))
+    | none => bad
+  | ["cli.compare"] =>
+    (st, encQR (fun (r : CLIR.CompareRow) => s!"{r.1} {r.2.1} {r.2.2.1}") (CLIR.cliCompareRow st.ar st.ar2))
   | ["lay"] =>
     (st, encQR (fun (segs : List LAY.Seg) => " ".intercalate (segs.map (fun s =>
         s!"{s.parent},{s.id},{encRat s.angle},{encRat s.start},{encRat s.width},{encOptInt s.len},{encOptStr s.name}")))
